@@ -16,6 +16,7 @@ import (
 	"strconv"
 	"strings"
 	"sync"
+	"sync/atomic"
 	"syscall"
 	"time"
 
@@ -78,6 +79,10 @@ type DB struct {
 	opened    bool          // true if Open() was called and Close() not yet called
 	syncState syncState
 	syncDiag  diagState
+
+	// Set by ResetLocalState: the local position is gone, so the next
+	// executor re-establishes the baseline from the replica as init does.
+	baselinePending atomic.Bool
 
 	// last file info for each level
 	maxLTXFileInfos struct {
@@ -538,6 +543,7 @@ func (db *DB) ResetLocalState(ctx context.Context) error {
 	db.maxLTXFileInfos.Unlock()
 
 	db.invalidatePosCache()
+	db.baselinePending.Store(true)
 
 	db.Logger.Info("local state reset complete, next sync will create fresh snapshot")
 	return nil
@@ -1957,6 +1963,21 @@ func (db *DB) newSyncExecutor(ctx context.Context) (*syncExecutor, error) {
 		return nil, err
 	} else if db.db == nil {
 		return nil, nil
+	}
+
+	// The local state was reset while running (auto-recovery). Without a
+	// baseline the next LTX file would restart at TXID 1, below what the
+	// replica already holds, and never be uploaded. Fetch the replica's
+	// newest file as init does for a database that is behind its replica,
+	// and forget the in-memory sync state, which described the removed files.
+	if db.baselinePending.Load() {
+		if db.Replica != nil {
+			if err := db.checkDatabaseBehindReplica(ctx); err != nil {
+				return nil, fmt.Errorf("check database behind replica: %w", err)
+			}
+		}
+		db.syncState = syncState{}
+		db.baselinePending.Store(false)
 	}
 
 	pos, err := db.Pos()
